@@ -5,7 +5,7 @@
 # Appends to /root/scratch/me-mut/results2.log
 set -u
 SD="$1"; shift; EXTRA="$*"
-W=/root/scratch/me-mut
+W=${W:-/root/scratch/me-mut}
 LOG=$W/results2.log
 cd $W/repo || exit 2
 for M in "$SD"/C*-mut*; do
